@@ -86,11 +86,15 @@ def build_config(entrypoint, include_none=False):
 
     config = {}
     configurable = entrypoint_configurables[entrypoint]
-    for c in reversed(configurable.mro()):
-        if issubclass(c, NbdimeConfigurable):
-            recursive_update(config, config_instance(c).configured_traits(c), include_none)
-            if (c.__name__ in disk_config):
-                recursive_update(config, disk_config[c.__name__], include_none)
+    sections = [c for c in reversed(configurable.mro())
+                if issubclass(c, NbdimeConfigurable)]
+    # Built-in defaults first, so that a default redeclared by a more
+    # specific class never outranks a value set in a config section:
+    for c in sections:
+        recursive_update(config, config_instance(c).configured_traits(c), include_none)
+    for c in sections:
+        if (c.__name__ in disk_config):
+            recursive_update(config, disk_config[c.__name__], include_none)
 
     return config
 
